@@ -181,7 +181,27 @@ inductive COp
   | strndup (str : List UInt8) (n : Nat)
   | calloc (num size : Nat)
   | countReset
+  | realloc (existing : Bool)     -- cpputest_realloc(ptr, n): ptr is a tracked block / NULL
+  | free                          -- cpputest_free(ptr) of a tracked block
 deriving Repr, DecidableEq, Inhabited
+
+/-- What `cpputest_realloc` / `cpputest_free` do (they do NOT go through `countdown()` and do not
+    touch `malloc_count`; they hand `getCurrentMallocAllocator()` to the leak detector):
+    with the null allocator current, a tracked block is refused with the detector's
+    "Allocation/deallocation type mismatch" failure (block allocated by malloc, released by
+    "unknown"), and `realloc(NULL, n)` really allocates through the platform `realloc` and then
+    dereferences the NULL bookkeeping node the null allocator returns (crash). -/
+inductive ReleaseResult
+  | ok
+  | mismatch
+  | crash
+deriving Repr, DecidableEq, Inhabited
+
+def reallocResult (c : CState) (existing : Bool) : ReleaseResult :=
+  if c.cur = .null then (if existing then .mismatch else .crash) else .ok
+
+def freeResult (c : CState) : ReleaseResult :=
+  if c.cur = .null then .mismatch else .ok
 
 def cstep (c : CState) : COp → CState
   | .setCountdown n => setCountdown c n
@@ -192,5 +212,7 @@ def cstep (c : CState) : COp → CState
   | .strndup s n => (strndup c s n).1
   | .calloc a b => (calloc c a b).1
   | .countReset => { c with count := 0 }
+  | .realloc _ => c
+  | .free => c
 
 end Failable
